@@ -7,6 +7,7 @@ import Sigverif.Lemmas.C05Flat
 import Sigverif.Lemmas.SrcDict
 namespace SV
 namespace Flat
+variable {kids : List NS} {rev : List (Tree × Nat)}
 set_option linter.unusedSimpArgs false
 set_option linter.unusedVariables false
 
@@ -191,6 +192,7 @@ end SV
 
 namespace SV
 namespace Flat
+variable {kids : List NS} {rev : List (Tree × Nat)}
 set_option linter.unusedSimpArgs false
 set_option linter.unusedVariables false
 
@@ -391,6 +393,7 @@ end SV
 
 namespace SV
 namespace Flat
+variable {kids : List NS} {rev : List (Tree × Nat)}
 set_option linter.unusedSimpArgs false
 set_option linter.unusedVariables false
 
@@ -402,7 +405,7 @@ theorem visit_other_two (t u : Tree) (st : VState) :
   simp [visit, visitList]
 
 theorem visit_name_mk (x : Nat) (ctx : Ctx) (n : List (Nat × Entry)) (i : List Nat) (c : List CallRec) :
-    visit false (.name x ctx) (mk n i c) = visitName (mk n i c) x ctx := by
+    visit false (.name x ctx) (mk kids rev n i c) = visitName (mk kids rev n i c) x ctx := by
   simp [visit]
 
 /-- what the star marker reads as, under the invariant -/
@@ -432,13 +435,13 @@ theorem sim_fwd (p : Prog) (roots A : List Nat) (c : Clean p roots A)
     (hc : isCalleeTree callee = true) (hroot : ∀ r, calleeRoot callee = some r → r ∈ roots)
     (htgt : ∀ x, target = some x → x ∈ A)
     (tA tK : Bool) (n : List (Nat × Entry)) (i : List Nat) (cs : List CallRec) (h : FInv p roots tA tK n i) :
-    ∃ n' i' recs, visit false (renderS p.va p.vk (.fwd callee npos kws uva uvk target)) (mk n i cs) =
-        mk n' i' (cs ++ recs) ∧ FInv p roots tA tK n' i' ∧
+    ∃ n' i' recs, visit false (renderS p.va p.vk (.fwd callee npos kws uva uvk target)) (mk kids rev n i cs) =
+        mk kids rev n' i' (cs ++ recs) ∧ FInv p roots tA tK n' i' ∧
       forwarding recs = (mkFwd callee npos kws uva uvk tA tK).map (FwdCall.toRec p) := by
   -- the assignment target (if any) is visited first
   have step1 : ∃ n1 i1, FInv p roots tA tK n1 i1 ∧
-      visit false (renderS p.va p.vk (.fwd callee npos kws uva uvk target)) (mk n i cs) =
-        visit false (callTree p.va p.vk callee npos kws uva uvk) (mk n1 i1 cs) := by
+      visit false (renderS p.va p.vk (.fwd callee npos kws uva uvk target)) (mk kids rev n i cs) =
+        visit false (callTree p.va p.vk callee npos kws uva uvk) (mk kids rev n1 i1 cs) := by
     cases target with
     | none =>
       exact ⟨n, i, h, by simp only [renderS, stmtOf, visit_other_one]⟩
@@ -465,19 +468,20 @@ end SV
 
 namespace SV
 namespace Flat
+variable {kids : List NS} {rev : List (Tree × Nat)}
 set_option linter.unusedSimpArgs false
 set_option linter.unusedVariables false
 
 /-- the shape every statement-level simulation result has -/
-def SimRes (p : Prog) (roots : List Nat) (t : Tree) (n : List (Nat × Entry)) (i : List Nat) (cs : List CallRec)
+def SimRes (kids : List NS) (rev : List (Tree × Nat)) (p : Prog) (roots : List Nat) (t : Tree) (n : List (Nat × Entry)) (i : List Nat) (cs : List CallRec)
     (calls : List FwdCall) (tA' tK' : Bool) : Prop :=
-  ∃ n' i' recs, visit false t (mk n i cs) = mk n' i' (cs ++ recs) ∧ FInv p roots tA' tK' n' i' ∧
+  ∃ n' i' recs, visit false t (mk kids rev n i cs) = mk kids rev n' i' (cs ++ recs) ∧ FInv p roots tA' tK' n' i' ∧
     forwarding recs = calls.map (FwdCall.toRec p)
 
 /-- `s = const` / `del s` on a star: the entry becomes `unknown` -/
 theorem sim_killA (p : Prog) (roots A : List Nat) (c : Clean p roots A) (ctx : Ctx) (hctx : ctx ≠ .load)
     (tA tK : Bool) (n : List (Nat × Entry)) (i : List Nat) (cs : List CallRec) (h : FInv p roots tA tK n i) :
-    visit false (.name p.va ctx) (mk n i cs) = mk (dset n p.va { m := .unknown }) (i.filter (· ≠ p.va)) cs ∧
+    visit false (.name p.va ctx) (mk kids rev n i cs) = mk kids rev (dset n p.va { m := .unknown }) (i.filter (· ≠ p.va)) cs ∧
       FInv p roots true tK (dset n p.va { m := .unknown }) (i.filter (· ≠ p.va)) := by
   refine ⟨?_, h.kill_va c⟩
   simp only [visit_name_mk, visitName_mk]
@@ -486,7 +490,7 @@ theorem sim_killA (p : Prog) (roots A : List Nat) (c : Clean p roots A) (ctx : C
 
 theorem sim_killK (p : Prog) (roots A : List Nat) (c : Clean p roots A) (ctx : Ctx)
     (tA tK : Bool) (n : List (Nat × Entry)) (i : List Nat) (cs : List CallRec) (h : FInv p roots tA tK n i) :
-    visit false (.name p.vk ctx) (mk n i cs) = mk (dset n p.vk { m := .unknown }) (i.filter (· ≠ p.vk)) cs ∧
+    visit false (.name p.vk ctx) (mk kids rev n i cs) = mk kids rev (dset n p.vk { m := .unknown }) (i.filter (· ≠ p.vk)) cs ∧
       FInv p roots tA true (dset n p.vk { m := .unknown }) (i.filter (· ≠ p.vk)) := by
   refine ⟨?_, h.kill_vk c⟩
   simp only [visit_name_mk, visitName_mk]
@@ -499,7 +503,7 @@ theorem sim_killK (p : Prog) (roots A : List Nat) (c : Clean p roots A) (ctx : C
 /-- `s.method()` : a call on an attribute of the star taints it -/
 theorem sim_mutateA (p : Prog) (roots A : List Nat) (c : Clean p roots A) (m : Nat)
     (tA tK : Bool) (n : List (Nat × Entry)) (i : List Nat) (cs : List CallRec) (h : FInv p roots tA tK n i) :
-    SimRes p roots (renderS p.va p.vk (.mutate .A m)) n i cs [] true tK := by
+    SimRes kids rev p roots (renderS p.va p.vk (.mutate .A m)) n i cs [] true tK := by
   have hct : isCalleeTree (.attr (.name p.va .load) m) = true := rfl
   have hshape : renderS p.va p.vk (.mutate .A m) =
       .other (.cons (callTree p.va p.vk (.attr (.name p.va .load) m) 0 [] false false) .nil) := by
@@ -526,7 +530,7 @@ theorem sim_mutateA (p : Prog) (roots A : List Nat) (c : Clean p roots A) (m : N
 
 theorem sim_mutateK (p : Prog) (roots A : List Nat) (c : Clean p roots A) (m : Nat)
     (tA tK : Bool) (n : List (Nat × Entry)) (i : List Nat) (cs : List CallRec) (h : FInv p roots tA tK n i) :
-    SimRes p roots (renderS p.va p.vk (.mutate .K m)) n i cs [] tA true := by
+    SimRes kids rev p roots (renderS p.va p.vk (.mutate .K m)) n i cs [] tA true := by
   have hct : isCalleeTree (.attr (.name p.vk .load) m) = true := rfl
   have hshape : renderS p.va p.vk (.mutate .K m) =
       .other (.cons (callTree p.va p.vk (.attr (.name p.vk .load) m) 0 [] false false) .nil) := by
@@ -556,21 +560,22 @@ end SV
 
 namespace SV
 namespace Flat
+variable {kids : List NS} {rev : List (Tree × Nat)}
 set_option linter.unusedSimpArgs false
 set_option linter.unusedVariables false
 
 theorem resolveCore_name_mk (x : Nat) (ctx : Ctx) (t : Bool) (n : List (Nat × Entry)) (i : List Nat) (cs : List CallRec) :
-    resolveCore (.name x ctx) t (mk n i cs) =
-      ((match dget n x with | some e => (e.m, e.tainted) | none => (.nm x, false)), mk n i cs) := by
+    resolveCore (.name x ctx) t (mk kids rev n i cs) =
+      ((match dget n x with | some e => (e.m, e.tainted) | none => (.nm x, false)), mk kids rev n i cs) := by
   simp only [resolveCore, lookup_mk]
   cases dget n x <;> rfl
 
 /-- `h(s)`: the star object itself is handed to other code as a positional argument -/
 theorem visit_handOver (hn x : Nat) (n : List (Nat × Entry)) (i : List Nat) (cs : List CallRec)
     (hflat : ∀ e, dget n hn = some e → ∀ v a, e.m ≠ .attr v a) :
-    ∃ r : CallRec, r.useVa = false ∧ r.useVk = false ∧ ∀ n1 i1, visitName (mk n i cs) x .load = mk n1 i1 cs →
-      visit false (.call (.name hn .load) (.plain (.name x .load) .nil) .nil) (mk n i cs) = mk n1 i1 (cs ++ [r]) := by
-  have hpar : ((mk n i cs).ns (mk n i cs).cur).parent.isSome = false := by simp [mk, VState.ns]
+    ∃ r : CallRec, r.useVa = false ∧ r.useVk = false ∧ ∀ n1 i1, visitName (mk kids rev n i cs) x .load = mk kids rev n1 i1 cs →
+      visit false (.call (.name hn .load) (.plain (.name x .load) .nil) .nil) (mk kids rev n i cs) = mk kids rev n1 i1 (cs ++ [r]) := by
+  have hpar : ((mk kids rev n i cs).ns (mk kids rev n i cs).cur).parent.isSome = false := by simp [mk, VState.ns]
   refine ⟨{ wrapped := markerIn n (.name hn .load), args := [starFound n x], kwargs := [], varargs := none,
             varkwargs := none, useVa := false, useVk := false, hideA := false, hideK := false }, rfl, rfl, ?_⟩
   intro n1 i1 hv
@@ -598,6 +603,7 @@ end SV
 
 namespace SV
 namespace Flat
+variable {kids : List NS} {rev : List (Tree × Nat)}
 set_option linter.unusedSimpArgs false
 set_option linter.unusedVariables false
 
@@ -621,9 +627,9 @@ theorem forwarding_append (a b : List CallRec) : forwarding (a ++ b) = forwardin
   simp [forwarding]
 
 /-- the shape of a list-level simulation result -/
-def SimResL (p : Prog) (roots : List Nat) (ts : TreeList) (n : List (Nat × Entry)) (i : List Nat) (cs : List CallRec)
+def SimResL (kids : List NS) (rev : List (Tree × Nat)) (p : Prog) (roots : List Nat) (ts : TreeList) (n : List (Nat × Entry)) (i : List Nat) (cs : List CallRec)
     (calls : List FwdCall) (tA' tK' : Bool) : Prop :=
-  ∃ n' i' recs, visitList ts (mk n i cs) = mk n' i' (cs ++ recs) ∧ FInv p roots tA' tK' n' i' ∧
+  ∃ n' i' recs, visitList ts (mk kids rev n i cs) = mk kids rev n' i' (cs ++ recs) ∧ FInv p roots tA' tK' n' i' ∧
     forwarding recs = calls.map (FwdCall.toRec p)
 
 mutual
@@ -632,7 +638,7 @@ mutual
       (s : Stmt) → flatS s = true → okS [p.va, p.vk] s = true →
       (∀ x ∈ assignedS s, x ∈ A) → (∀ r ∈ rootsS s, r ∈ roots) →
       ∀ (tA tK : Bool) (n : List (Nat × Entry)) (i : List Nat) (cs : List CallRec), FInv p roots tA tK n i →
-      SimRes p roots (renderS p.va p.vk s) n i cs (truthS s (tA, tK)).1 (truthS s (tA, tK)).2.1 (truthS s (tA, tK)).2.2
+      SimRes kids rev p roots (renderS p.va p.vk s) n i cs (truthS s (tA, tK)).1 (truthS s (tA, tK)).2.1 (truthS s (tA, tK)).2.2
     | .fwd callee npos kws uva uvk target, _, hok, hA, hR, tA, tK, n, i, cs, h => by
       simp only [okS, Bool.and_eq_true] at hok
       have hc := hok.1.1
@@ -642,25 +648,25 @@ mutual
     | .rebind .A, _, _, _, _, tA, tK, n, i, cs, h => by
       have ht : truthS (.rebind .A) (tA, tK) = ([], (true, tK)) := by simp [truthS, taintsNow]
       rw [ht]
-      obtain ⟨e, hf⟩ := sim_killA p roots A c .store (by decide) tA tK n i cs h
+      obtain ⟨e, hf⟩ := sim_killA (kids := kids) (rev := rev) p roots A c .store (by decide) tA tK n i cs h
       refine ⟨_, _, [], ?_, hf, by simp [forwarding]⟩
       simp only [renderS, stmtOf, visit_other_two, e, visit_const, List.append_nil]
     | .rebind .K, _, _, _, _, tA, tK, n, i, cs, h => by
       have ht : truthS (.rebind .K) (tA, tK) = ([], (tA, true)) := by simp [truthS, taintsNow]
       rw [ht]
-      obtain ⟨e, hf⟩ := sim_killK p roots A c .store tA tK n i cs h
+      obtain ⟨e, hf⟩ := sim_killK (kids := kids) (rev := rev) p roots A c .store tA tK n i cs h
       refine ⟨_, _, [], ?_, hf, by simp [forwarding]⟩
       simp only [renderS, stmtOf, visit_other_two, e, visit_const, List.append_nil]
     | .delete .A, _, _, _, _, tA, tK, n, i, cs, h => by
       have ht : truthS (.delete .A) (tA, tK) = ([], (true, tK)) := by simp [truthS, taintsNow]
       rw [ht]
-      obtain ⟨e, hf⟩ := sim_killA p roots A c .del (by decide) tA tK n i cs h
+      obtain ⟨e, hf⟩ := sim_killA (kids := kids) (rev := rev) p roots A c .del (by decide) tA tK n i cs h
       refine ⟨_, _, [], ?_, hf, by simp [forwarding]⟩
       simp only [renderS, visit_other_one, e, List.append_nil]
     | .delete .K, _, _, _, _, tA, tK, n, i, cs, h => by
       have ht : truthS (.delete .K) (tA, tK) = ([], (tA, true)) := by simp [truthS, taintsNow]
       rw [ht]
-      obtain ⟨e, hf⟩ := sim_killK p roots A c .del tA tK n i cs h
+      obtain ⟨e, hf⟩ := sim_killK (kids := kids) (rev := rev) p roots A c .del tA tK n i cs h
       refine ⟨_, _, [], ?_, hf, by simp [forwarding]⟩
       simp only [renderS, visit_other_one, e, List.append_nil]
     | .mutate .A m, _, _, _, _, tA, tK, n, i, cs, h => by
@@ -676,13 +682,13 @@ mutual
       have ht : truthS (.handOver .A hn) (tA, tK) = ([], (tA, tK)) := by simp [truthS, taintsNow]
       rw [ht]
       by_cases hi : i.contains p.va = true
-      · have hvn : visitName (mk n i cs) p.va .load = mk n i cs := by
+      · have hvn : visitName (mk kids rev n i cs) p.va .load = mk kids rev n i cs := by
           have hc : (i.contains p.va && decide (Ctx.load = Ctx.load)) = true := by rw [hi]; rfl
           rw [visitName_mk, if_pos hc]
         refine ⟨n, i, [r], ?_, h, by simp [forwarding, r1, r2]⟩
         simp only [renderS, stmtOf, visit_other_one]
         exact hv n i hvn
-      · have hvn : visitName (mk n i cs) p.va .load = mk (dset n p.va { m := .unknown }) (i.filter (· ≠ p.va)) cs := by
+      · have hvn : visitName (mk kids rev n i cs) p.va .load = mk kids rev (dset n p.va { m := .unknown }) (i.filter (· ≠ p.va)) cs := by
           have hi' : i.contains p.va = false := Bool.eq_false_iff.2 hi
           rw [visitName_mk, hi']
           simp only [Bool.false_and, Bool.false_eq_true, if_false]
@@ -702,7 +708,7 @@ mutual
         cases hc : i.contains p.vk with
         | false => rfl
         | true => exact absurd (h.immOnly p.vk hc) (Ne.symm c.ne)
-      have hvn : visitName (mk n i cs) p.vk .load = mk (dset n p.vk { m := .unknown }) (i.filter (· ≠ p.vk)) cs := by
+      have hvn : visitName (mk kids rev n i cs) p.vk .load = mk kids rev (dset n p.vk { m := .unknown }) (i.filter (· ≠ p.vk)) cs := by
         rw [visitName_mk, hi]
         simp only [Bool.false_and, Bool.false_eq_true, if_false]
       refine ⟨dset n p.vk { m := .unknown }, i.filter (· ≠ p.vk), [r], ?_, h.kill_vk c, by simp [forwarding, r1, r2]⟩
@@ -741,7 +747,7 @@ mutual
       (l : StmtList) → flatSL l = true → okSL [p.va, p.vk] l = true →
       (∀ x ∈ assignedSL l, x ∈ A) → (∀ r ∈ rootsSL l, r ∈ roots) →
       ∀ (tA tK : Bool) (n : List (Nat × Entry)) (i : List Nat) (cs : List CallRec), FInv p roots tA tK n i →
-      SimResL p roots (renderSL p.va p.vk l) n i cs (truthSL l (tA, tK)).1 (truthSL l (tA, tK)).2.1 (truthSL l (tA, tK)).2.2
+      SimResL kids rev p roots (renderSL p.va p.vk l) n i cs (truthSL l (tA, tK)).1 (truthSL l (tA, tK)).2.1 (truthSL l (tA, tK)).2.2
     | .nil, _, _, _, _, tA, tK, n, i, cs, h => by
       exact ⟨n, i, [], by simp [renderSL, visitList], by simpa [truthSL] using h, by simp [truthSL, forwarding]⟩
     | .cons s rest, hfl, hok, hA, hR, tA, tK, n, i, cs, h => by
